@@ -143,6 +143,22 @@ def gen_cases(ctx, count):
         cases.append({"space": space, "kind": "grid", "n": n, "ns": len(state) // n, "state": state, "cls": "odd-large",
                       "mode": rng.choice(["auto", "redist"]), "option": rng.choice(["gillespie", "tauleap"]),
                       "seed": rng.randint(0, 2 ** 31 - 1), "policy": "on_t_sample", "twice": True})
+    # seeds 0, 1, 2^31, 2^32-1 through every route by which a script reaches the engine, each delivered twice independently
+    routes = ["ctor", "simulate", "dict:rng_seed", "dict:rng seed", "dict:seed", "file"]
+    k_ = 0
+    for sd in (0, 1, 2 ** 31, 2 ** 32 - 1):
+        for route in routes:
+            for rep_ in range(ctx.n(1, 4)):
+                kind = "grid" if k_ % 2 == 0 else "graph"
+                space, info = stoch_gen.rand_space(rng, kind=kind, nenv=1, max_cells=6)
+                n = info["n"]
+                ns = rng.choice([1, 2])
+                state = [float(Fraction(rng.randint(0, 120), 8)) for _ in range(n * ns)]
+                cases.append({"space": space, "kind": kind, "n": n, "ns": ns, "state": state, "cls": "seed-route",
+                              "mode": ["auto", "Poisson", "redist"][k_ % 3], "option": ["gillespie", "tauleap"][(k_ // 3) % 2],
+                              "seed": sd, "policy": "on_t_sample", "twice": True, "route": route,
+                              "nomodel": route == "simulate"})
+                k_ += 1
     # one large low-count state per seed: thousands of entries of 10..25 molecules (rare events of the per-entry draw)
     for sd in ([1, 2, 4, 7] if ctx.tier == "quick" else list(range(24))):
         n = 1500
@@ -181,21 +197,56 @@ def child_case(case, lib):
             kw["units_system"] = st.UnitsSystem(**case["units"])
         return st.RDScript(system, t_sample=[0], time_step=1 / 64, t_max=1 / 64, sampling_policy=case["policy"],
                            rng_seed=typed_seed(), **kw)
+    def via_route(k):
+        """the k-th independent delivery of the same script + seed through the route under test"""
+        import copy, json as _json, os as _os, tempfile as _tf
+        from strengths.rdscript import rdscript_to_dict, rdscript_from_dict, save_rdscript, load_rdscript
+        route = case.get("route", "ctor")
+        if route in ("ctor", "simulate") or k == 2:
+            return mk_script()                         # k == 2: the reference run made with RDScript(rng_seed=s)
+        if route.startswith("dict:"):
+            d = rdscript_to_dict(mk_script())
+            d = _json.loads(_json.dumps(d))            # as it would come from a JSON text
+            sd = d.pop("rng_seed")
+            d[route[5:]] = sd
+            return rdscript_from_dict(copy.deepcopy(d))
+        if route == "file":
+            dd = _tf.mkdtemp(prefix="verif_c14_")
+            pth = _os.path.join(dd, "script.json")
+            save_rdscript(mk_script(), pth)
+            try:
+                return load_rdscript(pth)
+            finally:
+                import shutil
+                shutil.rmtree(dd, ignore_errors=True)
+        raise ValueError("unknown route " + route)
     try:
-        script = mk_script()
+        script = via_route(0)
     except (ValueError, TypeError) as ex:
         return {"raised": type(ex).__name__}
     out = {"sent": sent}
+    if case.get("route"):
+        out["loaded_seeds"] = [int(script.rng_seed)]
     runs = []
-    for rep in range(2 if case.get("twice") else 1):
+    nrep = 3 if case.get("route") not in (None, "ctor") else (2 if case.get("twice") else 1)
+    for rep in range(nrep):
         if rep:
-            script = mk_script()      # a second, independent simulate(..., rng_seed=s) call
+            script = via_route(rep)      # a second, independent delivery of the same script and seed
+            if case.get("route") and rep == 1:
+                out["loaded_seeds"].append(int(script.rng_seed))
         eng = LibRDEngine(lib, option=case["option"], requires_molecules=(case["option"] != "euler"))
         common.draws_clear(lib)
-        eng.setup(script)
-        draws = common.draws_get(lib)
-        traj = eng.get_output()
-        eng.finalize()
+        if case.get("route") == "simulate" and rep < 2:
+            kw2 = {} if case["mode"] is None else {"init_state_processing": case["mode"]}
+            traj = st.simulate(system, [0], engine=eng, time_step=1 / 64, t_max=1 / 64, sampling_policy=case["policy"],
+                               rng_seed=typed_seed(), **kw2)
+            draws = []
+            out["loaded_seeds"] = out.get("loaded_seeds", [])[:rep] + [int(traj.script.rng_seed)]
+        else:
+            eng.setup(script)
+            draws = common.draws_get(lib)
+            traj = eng.get_output()
+            eng.finalize()
         tdata = traj.data
         if case.get("units") and case["units"].get("quantity", "molecule") != "molecule":
             usm = script.units_system.copy()
@@ -213,6 +264,8 @@ def child_case(case, lib):
     out.update(runs[0])
     if len(runs) > 1:
         out["again"] = runs[1]["x0"]
+    if len(runs) > 2:
+        out["ref"] = runs[2]["x0"]
     return out
 
 
@@ -253,6 +306,12 @@ def oracle(case, res):
         return [("no-sample0", "no sample recorded at t = 0")], False
     em = effective_mode(mode, case["option"])
     ambiguous = False
+    if case.get("route") and any(sd != case["seed"] for sd in res.get("loaded_seeds", [])):
+        fails.append(("seed-not-kept:%s" % case["route"], "the script delivered through %s carries rng_seed %s, the given seed is %d"
+                      % (case["route"], res.get("loaded_seeds"), case["seed"])))
+    if "ref" in res and res["ref"] != y and em != "none":
+        fails.append(("route-not-reproducing-constructor:%s" % case["route"],
+                      "the script delivered through %s does not reproduce the run made with RDScript(rng_seed=%d)" % (case["route"], case["seed"])))
     if "again" in res and res["again"] != y:
         fails.append(("not-reproducible:%s" % em, "two runs with the same seed give different t = 0 states"))
     if em == "none":
@@ -285,7 +344,7 @@ def oracle(case, res):
             if got != math.floor(tot):
                 fails.append(("redist-total", "species %d: total %s after redistribution, floor of the real total is %d" % (s, got, math.floor(tot))))
                 break
-    if em == "Poisson":
+    if em == "Poisson" and case.get("route") != "simulate":
         # layout: the draw logged with mean m must sit at an entry whose amount is m (multiset per value)
         by_val = {}
         for p in range(n * ns):
@@ -410,7 +469,9 @@ def run(ctx):
                 ctx.count("correction_loop_cases")
                 ctx.count("correction_loop_uniforms", sum(1 for d in res["draws"] if d[0] == "unif"))
             fails, amb = oracle(case, res)
-            small = {k2: case[k2] for k2 in ("space", "kind", "n", "ns", "state", "mode", "option", "seed", "policy", "twice", "units", "chem", "seed_type") if k2 in case}
+            small = {k2: case[k2] for k2 in ("space", "kind", "n", "ns", "state", "mode", "option", "seed", "policy", "twice", "units", "chem", "seed_type", "route") if k2 in case}
+            if case.get("route"):
+                ctx.count("seed_route_" + case["route"])
             if case.get("units"):
                 ctx.count("units_quantity_" + case["units"]["quantity"])
             if case.get("chem") and any(case["chem"]):
